@@ -8,25 +8,25 @@ import re
 V = '/verif'
 STATUS = [
  # id, theorems (what is proved for all inputs), tie, what is NOT a theorem
- ('C01', "LUTs = primitive functions; both 2-valued dispatch copies = LUT per lane; primitive selection; opcode injectivity; lane lifting; **build_ops_solution** (for every wf, comb.-acyclic netlist and stimulus the op list SimOps builds, executed gate by gate in any value domain, satisfies every node's equation), solution_unique, logic2_gate_by_gate; **end_to_end_default** and, for all four c_reuse x strip_forks combinations, C06_options_irrelevant_spec (flat memory after the scheduled ops = the unique gate-by-gate solution at every observed slot); **k cycles**: cycles_are_iter_sem (scheduler-based iteration = k-fold application of the unique solution; state elements without data line read 0), cycle_next_state, cycles_no_data_line", 'T (SimTables, LogicSimDispatch) + C (SimOps.build, LogicSim s_to_c/c_prop/c_to_s/cycle: ops, levels, c_locs, s[0], s[1] after k cycles; line-level line_cycles vs LogicSim.cycle per lane) + per-case evaluation of solution_b, certificates, wf_netlist_b/acyclic_b/gates_known_b', 'memory-level cycle loop of Model/LogicSimModel.v vs line level (in progress: Proofs/LogicSimGlue.v)'),
- ('C02', '4-/8-valued dispatch (plain and callback) = documented operator composition on all 8^4/4^4 tuples; X-soundness, init/final projection, Boolean restriction per primitive and for every op list and stimulus (logical relation); gate_by_gate and end_to_end_default in the multi-valued domain', 'T + C (LogicSim m=4/8 end to end)', 'list-memory model vs mexec (in progress)'),
+ ('C01', "LUTs = primitive functions; both 2-valued dispatch copies = LUT per lane; primitive selection; opcode injectivity; lane lifting; **build_ops_solution** (for every wf, comb.-acyclic netlist and stimulus the op list SimOps builds, executed gate by gate in any value domain, satisfies every node's equation), solution_unique; **end to end for all four c_reuse x strip_forks combinations** down to the compared model: logicsim_model_correct / sim_case2_correct (the list-memory model that is compared with the real LogicSim captures the unique gate-by-gate solution at every data line); **k cycles**: cycles_are_iter_sem, cycles_model_correct (memory carried over between cycles), cycle_next_state, cycles_no_data_line", 'T (SimTables, LogicSimDispatch) + C (SimOps.build, LogicSim s_to_c/c_prop/c_to_s/cycle: ops, levels, c_locs, s[0], s[1] after k cycles; line-level line_cycles per lane) + per-case evaluation of solution_b, certificates, hyps_all_b; targeted zero-slot-liveness circuits', 'circuits outside gates_known / forks_ok (output-less gates, unknown kinds): per-case certificate only'),
+ ('C02', '4-/8-valued dispatch (plain and callback) = documented operator composition on all 8^4/4^4 tuples; X-soundness, init/final projection, Boolean restriction per primitive and for every op list and stimulus (logical relation); gate_by_gate, end_to_end_default and logicsim_model_correct (compared model sim_case8 = capture of the unique multi-valued solution, all options)', 'T + C (LogicSim m=4/8 end to end) + single-gate exhaustive sweep (every kind x all operand tuples)', '-'),
  ('C03', 'per gate evaluation (any LUT/operands/delays>=0/capacity>=4): termination, final value by parity (also under overflow), initial value, well-formedness; **circuit level**: for any op list every signal starts/ends at the Boolean evaluation of initial/final values; **flat memory**: flat_refines (c_prop on the flat waveform memory = line-level wexec / wacc under the region certificate), regions_check_sound', 'C (whole waveform memory, abuf, s[3..10] per lane; line-level wexec vs every tracked region; strip_forks in 30% of the cases)', 'flat memory with c_reuse / strip_forks (correspondence); float rounding off the integer grid'),
  ('C04', 'per gate: emit-is-sum, shift and scale equivariance (any k>0), strict monotonicity for polarity-free delays; **circuit level** for any op list: STA window, circuit_shift / circuit_scale (no side condition) with rerun forms, circuit_mono', 'C + line-level C + STA/shift/scale/monotonicity/emit-sum oracle + single-gate stress', '-'),
  ('C05', 'hazard soundness of the 8-valued algebra per primitive; no_change_no_edge per gate; **circuit level**: logic8_predicts_wave for any op list', 'T + C (both simulators) + small-circuit stress', 'memory level as C03'),
  ('C06', 'memory level, all netlists, any value domain: options_irrelevant_spec / options_irrelevant / c_reuse_irrelevant / end_to_end_reuse (every c_reuse x strip_forks combination delivers the unstripped line-level value at every observed slot), c_reuse_same_interface; strip_forks_irrelevant (line level) also over k cycles; **timing level**: buf_zero_delay_identity (+ overflow case, + refuted for non-monotone input), wave_strip_forks_irrelevant (monotone stems) and _polfree, wave_strip_nonmonotone_refuted (= D26), dataset_selection[_lanes]; launcher covers each in-range instance exactly once; lane independence; release order irrelevant', 'differential execution over all option/lane/code-path pairs incl. repeated propagation, dataset modes, 33..65 lanes over two cycles; line-level wexec_alias / wexec_sel vs real memory; Model/Launch.v vs the real MockCuda thread sequence; known finding D26', 'CPU vs GPU kernel bodies (differential); more lanes / lane permutation / sims=k at timing level (differential; the model is per lane)'),
  ('C07', 'levels_valid (greedy levelisation of every SSA-topological op list is an independent partition); build_ops_ssa, build_ops_ssa_strip, build_levels_valid[_strip], build_sched_cert (every build() result under any option), build_stems_defined, stems_are_chain_heads; perm_level_sound (any order inside levels, same signals); threads once', 'C (SimOps) + certificates per case + permuted-schedule / permuted-thread execution + launcher correspondence', 'sub-kernel interleavings'),
  ('C08', 'allocator: invariant for all histories, alloc_fresh, free_live, live_disjoint, high_water, free_commute; map: map_check_sound, **build_passes_certificate[_reuse,_all]** (all wf acyclic netlists of known primitives, all capacity vectors, all four option combinations), build_total[_reuse,_all], side conditions necessary / checkable, non-vacuity witnesses (three signals sharing a location)', 'C (Heap after every step; SimOps) + certificates per case + liveness oracle + hyps_all_b per generated circuit', '-'),
- ('C09', 'CInv for the empty circuit and preserved by every primitive edit, SetIO, GetOrAddFork, RemoveDangling, Eliminate1to1, Copy, PickleRoundTrip; lifted to all histories; io entries stay live; canon(copy)=canon; stats; cinv_b sound; refutation of the pre-fix substitute', 'C (full canonical state after every step of random/wild/instance histories) + independent invariant oracle with shrinking', 'Substitute / ResolveTlib preserve CInv (modelled, cinv_b evaluated per step)'),
- ('C10', "view_wf / history_view_wf (every reachable circuit's view is a wf netlist); copy_view / pickle_view (pin-equivalent view, names, s_names) and copy_solution / pickle_solution (any value domain); copy_view_not_equal (trailing None); csol <-> solution; **eliminate_function** (function preserved, both directions, interface set unchanged) and eliminate_solution_view; eliminate_s_names[_perm]; **eliminate_state_order_refuted** (= D29); eliminate_order_kept (sufficient condition, checker sound)", 'C (view / s_names / s_nodes after every step of random, generated and witness histories) + differential truth tables; all library cell definitions; known findings D15, D21, D22, D29', 'semantic theorem for substitute on arbitrary implementations (library cells: exhaustive theorems in progress, Properties/C10Lib.v)'),
- ('C11', 'range/part-select names, sized constants (length, value, MSB first), concat = flat_map, port positions / io order, bench wiring', 'C (transformer helpers, bench elaboration) + generator-owned netlists in both formats', 'grammars; Verilog module passes 1-2; full verilog_sem'),
+ ('C09', 'CInv for the empty circuit and preserved by ALL TWELVE public operations incl. **substitute** and **resolve_tlib_cells** (weak invariant through the five phases; loop skips removed instances as the code does since 11c77ac); lifted to all histories (history_inv_all); io entries stay live; canon(copy)=canon; stats; cinv_b sound; necessity witnesses for the four shape preconditions on implementations; refutation witnesses for the two pre-fix defects', 'C (full canonical state after every step of random/wild/instance/witness histories) + independent invariant oracle with shrinking', 'implementation circuits violating the shape preconditions (API misuse); stats with dunder-named kinds'),
+ ('C10', "view_wf / history_view_wf; copy_view / pickle_view and copy_solution / pickle_solution; csol <-> solution; **eliminate_function**; eliminate_s_names[_perm]; **eliminate_state_order_refuted** (= D29); eliminate_order_kept; **library clause** (C10Lib): for every cell definition of the five libraries resolve keeps consistency, io, names and computes the implementation's / datasheet function on ALL rows -- all pins connected, each single pin unconnected, no output connected; exceptions = D15/D21/D22, each excepted instance refuted", 'C (view / s_names / s_nodes after every history step; implementation circuits and resolved hosts of all 263 definitions vs real TechLib / resolve_tlib_cells) + differential truth tables; known findings D15, D21, D22, D29', 'semantic theorem for substitute on arbitrary (non-library) implementations'),
+ ('C11', "range/part-select names, sized constants, concat, port positions / io order; **bench from TEXT** (lexer+parser = lark's language, round trip, language characterisation, wiring from text); **Verilog module passes 0-2**: module_consistent, module_ports, module_pin_in/_out/_pins_only, module_assign, module_outputs, module_branchforks[_sets] (+ name-clash witness = D33), library pin tables injective", 'C (transformer helpers; what `module` receives vs model on generated / probe / wild modules; bench text vs lark incl. malformed) + generator-owned netlists in both formats incl. star-run comments', 'Verilog lark grammar; elaborated circuit -> function for Verilog (oracle + C10 + C01)'),
  ('C12', 'every bp8/bp4/mv operator k=1..4 = documented algebra; formats agree; Boolean restriction and De Morgan (any arity on {0,1}, k<=4 on eight values); lane lifting', 'T (LogicOps) + exhaustive C', 'mv_* wrappers (broadcast, out=) differential'),
  ('C13', 'returned counts = edges of the stored waveform; overflow-mark rule; no overflow => exact; capture_summary; prefix lemma; **circuit level**: wacc_running / wacc_final[_ssa] (accumulated activity = weighted edge sums), acc_once_check_sound, ovf_reach[_clean], circuit_capture; flat_capture', 'C + line-level C (wacc vs abuf) + recount oracle with generator-owned a_ctrl + unlimited-capacity oracle', 'capture with sd > 0'),
- ('C14', 'cells_none_lost (+ refuted for the pinned code), iopath/interconnect slot characterisation, edge qualifiers, empty triples, dataset axis', 'C (DelayFile contents, both arrays incl. exceptions) + ground-truth arrays', 'SDF grammar'),
+ ('C14', '**text level**: parse_cfile (every rendering of a file is parsed to its names and entries), parse/print round trip, ignored text and skipped items irrelevant, entry_kept[_any] (every written delay entry reaches the DelayFile under its instance); cells_none_lost (+ refuted for the pinned code), iopath/interconnect slot characterisation, edge qualifiers, empty triples, dataset axis', 'C (lark raw tree vs parse_sdf on generated / mutated / malformed / probe texts; lexer probe; DelayFile contents, both arrays incl. exceptions) + ground-truth arrays', 'lark itself (behaviour on this grammar transcribed); float() beyond k/8 decimals'),
  ('C15', 'bp round trips (any shape), axis convention, render/parse tables (regenerated), pack/unpack for all dtypes, popcount', 'T (LogicTables) + C (numpy primitives) + oracle', 'numpy primitive semantics (assumptions validated by correspondence)'),
- ('C16', 'callback trace = op outputs in order; identity; upstream untouched; override = driven signal; callback dispatch copies = plain', 'T + C (call sequence + results) + cut-circuit oracle over option combinations', 'protocol glue in c_prop'),
+ ('C16', 'callback trace = op outputs in order; identity; upstream untouched; override = driven signal; callback dispatch copies = plain; **model_callback_correct** (the compared memory-level model with callback refines the op-list callback semantics for every build() result), model_override / identity / trace, sim_case8_cb_correct', 'T + C (call sequence + results) + cut-circuit oracle over option combinations', '-'),
  ('C17', 'Kahn: nodup, sources first, drivers first, complete (unconnected pins), levels, line order, reverse = mirror; **fan-in**: fanin_order, nodup, sound, complete_comb, exact_comb, unfold / comb_node / seq_node; prefix lookup lists integer keys in numeric order; wf_netlist_b/acyclic_b/acyclic_rev_b sound', 'C (exact sequences; _locs results) + graph/ground-truth oracles', 'regular-expression generality of _locs'),
  ('C18', 'scan load/unload position with inversion parity, pi/po groups, interface = s_nodes, loc transition, per-pattern columns; refutations for the pinned code', 'C (patterns, maps, tests, responses, tests_loc) + ground truth', 'STIL grammar; the logic simulation inside tests_loc is an input of the model'),
- ('C19', 'pins once, names unique/expand, datasheet function of every family cell on all rows (regenerated libraries)', 'T (TechLibs) + exhaustive C against TechLib.cells', 'family spec is trusted'),
+ ('C19', 'pins once, names unique/expand, datasheet function of every family cell on all rows (regenerated libraries); **text_matches_translation** (Coq transcription of TechLib.__init__ on the five library strings = translated cell lists), expand_names = itertools product in order, exact distinctness condition (+ collision witness)', 'T (library strings emitted verbatim; TechLibs) + exhaustive C against TechLib.cells + TechLib(text) on generated library texts', 'family spec is trusted'),
  ('C20', 'wildcard resolution (structural + nearest-value iff), via location, via arrays (members iff, count, order, NoDup), per-layer/per-type listings, ROUTED accumulation, ROW arithmetic', 'C (listings, points, vias) + ground truth of generated DEF texts', 'DEF grammar and transformer callbacks'),
 ]
 
